@@ -473,6 +473,10 @@ def tip_programs(dev):
         {"k": "coll", "x": [["int", 1], ["tip", 1], ["int", 4]]},
         {"k": "coll", "x": [["tip", 8], ["int", 2], ["tip", 2], ["int", 8]], "present": "tuple"},
         {"k": "coll", "x": [["int", n] for n in range(1, 9)]},
+        # as many tips as wells in the multi-well calls below (a collection is ONE selection, not one tip per well)
+        {"k": "coll", "x": [["int", 3], ["int", 5]]},
+        {"k": "coll", "x": [["tip", 2], ["int", 7]], "present": "tuple"},
+        {"k": "coll", "x": [["int", 6], ["tip", 1], ["int", 2]]},
     ]
     bad = [{"k": "one", "s": ["int", 0]}, {"k": "one", "s": ["int", 9]}, {"k": "coll", "x": [["int", 1], ["any"]]},
            {"k": "one", "s": ["bad", "float"]}, {"k": "coll", "x": [["bad", "str"]]}]
@@ -483,6 +487,7 @@ def tip_programs(dev):
              "label": "tips", "wash": 1, "kw": {"tip": t, "lc": "Water"}},
             {"op": "aspirate", "lw": P, "wells": L([(0, 0), (0, 1)]), "vols": L([1, 2]), "label": None, "kw": {"tip": t}},
             {"op": "dispense", "lw": P, "wells": L([(2, 2)]), "vols": S(3), "label": None, "kw": {"tip": t}},
+            {"op": "dispense", "lw": P, "wells": L([(0, 3), (1, 3), (2, 3)]), "vols": L([1, 2, 1]), "label": "three wells", "kw": {"tip": t}},
         ]
         progs.append(h)
     return progs
